@@ -96,13 +96,20 @@ class Gen:
             out += [self.ctl(), self.scalar() if flat else self.cvalue()]
         return out
 
+    def ctl_dict(self, lo, hi):
+        keys = self.r.sample(CTL_S, self.r.randint(lo, hi))
+        return vd([[vs(k_), self.cvalue(1)] for k_ in keys])
+
     def synth_args(self):
         r = self.r
         k = r.random()
         if k < 0.2:
             return None
-        if k < 0.7:
+        if k < 0.62:
             return vl(self.pairs(0, 3))
+        if k < 0.7:
+            self.tags.add('set-dict')
+            return vl(self.pairs(0, 2) + [self.ctl_dict(1, 2)])
         if k < 0.8:
             return vt(self.pairs(1, 2))
         keys = r.sample(CTL_S, r.randint(0, 3))
@@ -189,7 +196,15 @@ class Gen:
                       'n_release', 'n_run', 'n_free', 'n_trace', 'n_query', 'n_move_before', 'n_move_after',
                       'n_move_to_head', 'n_move_to_tail', 'g_free_all', 'g_deep_free', 'g_dump_tree', 's_reorder'])
         if k == 'n_set':
-            self.emit({'op': k, 'n': n, 'args': self.pairs()})
+            z = r.random()
+            if z < 0.2:        # the controls given as one dict
+                self.emit({'op': k, 'n': n, 'args': [self.ctl_dict(1, 3)]})
+                self.tags.add('set-dict')
+            elif z < 0.3:      # pairs followed by a dict
+                self.emit({'op': k, 'n': n, 'args': self.pairs(1, 2) + [self.ctl_dict(1, 2)]})
+                self.tags.add('set-dict')
+            else:
+                self.emit({'op': k, 'n': n, 'args': self.pairs()})
         elif k == 'n_setn':
             args = []
             for _ in range(r.randint(1, 3)):
@@ -420,7 +435,7 @@ class Gen:
     def op_misuse(self):
         r, s = self.r, self.s
         ln = s.live_nodes()
-        k = r.choice(['odd_set', 'empty_set', 'dict_set', 'dict_setn', 'tuple_setn', 'dict_list_synth', 'bad_action',
+        k = r.choice(['odd_set', 'empty_set', 'dict_setn', 'tuple_setn', 'dict_list_synth', 'bad_action',
                       'buf_after_free', 'bus_after_free', 'frames_none', 'freed_obj_arg', 'empty_bus_set', 'fill_bad'])
         self.tags.add('misuse:' + k)
         if k in ('odd_set', 'empty_set', 'dict_set', 'dict_setn', 'tuple_setn', 'freed_obj_arg') and not ln:
